@@ -166,4 +166,17 @@ example :
     (runWrap (listUnder Nat) c 10 [7, 8, 9] { len := some 9 } []).2.2.finished = true := by
   decide
 
+/-- **the `Stream` wrapper**: a `Pending` poll leaves the bar exactly as it is, a `Ready` poll is what the iterator wrapper does
+with the same answer; hence after any sequence of polls the bar is the iterator wrapper's bar after the `Ready` answers alone —
+`C17_iter_counts` and `C17_iter_exhaustion` apply to streams as they stand, however many `Pending` polls come in between -/
+theorem C17_stream_polls {α : Type} : ∀ (polls : List (Option (Option α))) (b : St),
+    polls.foldl onPoll b = barAfter b (polls.filterMap id)
+  | [], _ => rfl
+  | none :: ps, b => by
+    simp only [List.foldl_cons, onPoll, List.filterMap_cons, id]
+    exact C17_stream_polls ps b
+  | some r :: ps, b => by
+    simp only [List.foldl_cons, onPoll, List.filterMap_cons, id, barAfter]
+    exact C17_stream_polls ps (onItem b r)
+
 end IndicatifModel.IterWrap
